@@ -283,5 +283,9 @@ func Explore(preemptions int) {}
 // Yield is an explicit scheduling point.
 func Yield() { runtime.Gosched() }
 
+// OpaqueAlloc makes make([]T, n) with symbolic n yield a slice of symbolic length instead of
+// forking over every feasible n (engine only).
+func OpaqueAlloc(on bool) {}
+
 // CollisionFree switches on the collision-free idealisation of hash functions (engine only).
 func CollisionFree() {}
